@@ -70,6 +70,38 @@ def is_abstract(repo, cls):
     return any(b.split(".")[-1] == "ABC" for b in ci.bases)
 
 
+_SUB_OBS, _SUB_OPTS, _SUB_FAM = [], {}, None
+
+
+def _ob_dict(ob, fam, opts):
+    from .smt import discharge
+
+    discharge(ob, both=opts.get("both", False), use_cvc5=opts.get("cvc5", True))
+    if ob.verdict == "refuted" and getattr(ob, "weak", None):
+        ob.verdict, ob.model = "unknown", None
+        ob.reason = "proof lost (not a refutation): " + "; ".join(sorted(set(ob.weak)))[:300]
+    d = {"name": ob.name + (f"[{fam}]" if fam else ""), "kind": ob.kind, "props": ob.props, "verdict": ob.verdict, "backend": ob.backend,
+         "time": round(ob.time, 3), "line": ob.line, "reason": ob.reason, "trace": ob.trace}
+    if ob.verdict == "refuted" and ob.model is not None:
+        d["model"] = model_summary(ob.model)
+    if ob.verdict != "discharged" and opts.get("dump"):
+        d["smt2"] = ob.formula().sexpr()[:20000]
+    return d
+
+
+def _discharge_slice(arg):
+    k, n = arg
+    out = {}
+    for i, ob in enumerate(_SUB_OBS):
+        if i % n == k:
+            try:
+                out[i] = _ob_dict(ob, _SUB_FAM, _SUB_OPTS)
+            except Exception as e:  # noqa
+                out[i] = {"name": ob.name, "kind": ob.kind, "props": ob.props, "verdict": "unknown", "backend": None, "time": 0.0, "line": ob.line,
+                          "reason": f"discharge error: {e}", "trace": ob.trace}
+    return out
+
+
 def verify_one(job):
     q, fam, opts = job
     import z3  # noqa
@@ -115,6 +147,24 @@ def verify_one(job):
         res["gen_s"] = time.time() - t0
         k_, n_ = opts.get("slice", (0, 1))
         res["total_obligations"] = len(obs)
+        sub = int(opts.get("subworkers", 1))
+        if sub > 1 and len(obs) > sub:
+            # the VCs are generated ONCE; the discharge is spread over forked sub-workers that inherit the formulas
+            global _SUB_OBS, _SUB_OPTS, _SUB_FAM
+            _SUB_OBS, _SUB_OPTS, _SUB_FAM = obs, opts, fam
+            ctx = mp.get_context("fork")
+            with ctx.Pool(sub) as pool:
+                parts = pool.map(_discharge_slice, [(k, sub) for k in range(sub)], chunksize=1)
+            by_index = {}
+            for part in parts:
+                by_index.update(part)
+            res["obligations"] = [by_index[i] for i in sorted(by_index)]
+            res["assumed"] = sorted(ex.assumed)
+            res["warnings"] = ex.warnings
+            res["npaths"] = ex.npaths
+            res["cover"] = getattr(ex, "cover", None)
+            res["wall"] = time.time() - t0
+            return res
         obs = [ob for i_, ob in enumerate(obs) if i_ % n_ == k_]
         for ob in obs:
             # discharged in the process that generated the formula: z3 behaves measurably worse on the same formula after a
@@ -171,6 +221,10 @@ def model_summary(m):
 
 def _child(job, conn):
     try:
+        os.setsid()  # own process group: sub-workers die with the job when it is killed at the deadline
+    except OSError:
+        pass
+    try:
         conn.send(verify_one(job))
     except BaseException:  # noqa
         q, fam, _ = job
@@ -196,7 +250,7 @@ def run_jobs(jobs, procs):
         while pending and len(running) < procs:
             k, job = pending.pop(0)
             a, b = ctx.Pipe(duplex=False)
-            p = ctx.Process(target=_child, args=(job, b), daemon=True)
+            p = ctx.Process(target=_child, args=(job, b), daemon=False)
             p.start()
             b.close()
             running[k] = (p, a, time.time(), job)
@@ -212,7 +266,10 @@ def run_jobs(jobs, procs):
                 results[k] = lost(job, "worker process died")
                 done.append(k)
             elif time.time() - t0 > deadline:
-                p.terminate()
+                try:
+                    os.killpg(p.pid, 9)
+                except OSError:
+                    p.terminate()
                 results[k] = lost(job, f"worker exceeded the wall-clock budget of {deadline:.0f}s (slice {job[2].get('slice')})")
                 done.append(k)
         for k in done:
@@ -252,11 +309,10 @@ def run(props=None, only=None, both=False, cvc5=True, dump=False, repo_root=None
         n = 1
         if not q.startswith("lemma."):
             n = max(1, int(getattr(reg.contracts[q], "slices", 1)))
-        for k in range(n):
-            jobs.append((q, fam, {"both": both, "cvc5": cvc5, "dump": dump, "repo": repo_root, "slice": (k, n)}))
+        jobs.append((q, fam, {"both": both, "cvc5": cvc5, "dump": dump, "repo": repo_root, "slice": (0, 1), "subworkers": n}))
     procs = procs or 16
     # heaviest first
-    jobs.sort(key=lambda j_: -j_[2]["slice"][1])
+    jobs.sort(key=lambda j_: -j_[2]["subworkers"])
     parts = run_jobs(jobs, procs)
     # merge the slices of one function back into one result
     merged = {}
